@@ -316,3 +316,253 @@ def unit_restore(twin=False):
             U.discharge_eq_real(r, "%s.tn" % q, list(s.pc), tn, spec)
     r.assumptions += ["the inverse property uses: the sweep of CVRestore visits the same (k, j) pairs in the same order as CVPredict's and subtraction of the same unmodified zn[j] undoes the addition (zn[j] for j > the updated index is already restored when it is used: the order argument of the SUNDIALS documentation, not re-proved)", "N_VLinearSum per C12.nvector.*"]
     return r
+
+
+def unit_cvode_exit(twin=False):
+    """CVode's step loop: integration continues exactly while tout has not been reached ((tn - tout) * h < 0); when it is reached the state
+    handed back is the interpolant AT tout (CVodeDky(cv_mem, tout, 0, yout)) and the time reported is tout; after a failed step the state
+    handed back is the last accepted one (zn[0]) at its own time tn."""
+    q = "CVode"
+    fn = A.find_function(REL, q)
+    r = U.new_unit("C12.cvode.CVode_returns_the_state_at_tout", REL, q, fn)
+    loops = [x for x in A.walk(fn) if x.get("kind") in ("ForStmt", "WhileStmt", "DoStmt")]
+    if len(loops) != 1:
+        raise Undecided("CVode: expected the one step loop, found %d" % len(loops))
+    c = ctx(functional=(), pure_all=False)
+    c.pure.update({"CVodeDky", "N_VScale", "CVHandleFailure", "sformatf", "warning_msg", "Phreeqc::sformatf", "Phreeqc::warning_msg"})   # what follows the step does not move tn or *t; CVStep (and the rest) may write anything
+    f, ex, its, info = U.run_loop_isolated(REL, q, 0, ctx=c)
+    consts = _macro_ints(["SUCCESS_STEP"])
+    nd = nc = nfail = 0
+    for s in its:
+        evs = list(U.iter_events(s))
+        names = [e.name.split("::")[-1] for e in evs]
+        if "CVStep" not in names:
+            continue                                        # exits before a step is attempted (too much work / accuracy): nothing integrated
+        cv = local(info, s, "cv_mem"); tout = local(info, s, "tout"); yout = local(info, s, "yout"); tp = local(info, s, "t")
+        step = [e for e in evs if e.name.endswith("CVStep")][-1]
+        tn = fld(ex, s, "cv_tn", "R", cv); h = fld(ex, s, "cv_h", "R", cv)
+        reached = tm.le(tm.num(0), (tn - tout) * h) if not twin else tm.lt(tm.num(0), (tn - tout) * h)
+        ok_step = tm.eq(step.result, tm.num(consts["SUCCESS_STEP"], "I"))
+        hy = list(s.pc)
+        if s.status in ("run", "cont"):
+            nc += 1
+            U.discharge_valid(r, "continues.only_after_a_successful_step_short_of_tout#%d" % nc, hy, tm.and_(ok_step, tm.not_(reached)))
+        elif s.status == "brk":
+            dky = [e for e in evs if e.name.endswith("CVodeDky")]
+            if dky:
+                nd += 1
+                U.discharge_valid(r, "interpolates.only_when_tout_reached_after_a_successful_step#%d" % nd, hy, tm.and_(ok_step, reached))
+                a = dky[-1].args
+                okargs = a[0] is cv and a[1] is tout and tm.isnum(a[2]) and a[2].args[0] == 0 and a[3] is yout
+                r.add("interpolates.state_at_tout_into_yout(CVodeDky(cv_mem,tout,0,yout))#%d" % nd, DISCHARGED if okargs else FAILED, "trace", 0, repr(a)[:160])
+                U.discharge_eq_real(r, "interpolates.reported_time==tout#%d" % nd, hy, _read(ex, s, "R", tp), tout)
+            else:
+                one_step = any("ONE_STEP" in repr(p) and p.op != "not" for p in s.pc)
+                failed = B.z3_prove(hy, tm.not_(ok_step))[0] == "proved"
+                if failed:
+                    nfail += 1
+                    sc = [e for e in evs if e.name.endswith("N_VScale")]
+                    zn0 = None
+                    okc = bool(sc) and tm.isnum(sc[-1].args[0]) and sc[-1].args[0].args[0] == 1 and sc[-1].args[2] is yout and "fld:cv_zn" in repr(sc[-1].args[1]) and repr(sc[-1].args[1]).rstrip(")").endswith(", 0")
+                    r.add("failed_step.hands_back_last_accepted_state(zn[0])#%d" % nfail, DISCHARGED if okc else FAILED, "trace", 0, repr(sc[-1].args)[:160] if sc else "")
+                    U.discharge_eq_real(r, "failed_step.reported_time==tn#%d" % nfail, hy, _read(ex, s, "R", tp), tn)
+                elif not one_step:
+                    # a successful step in normal mode leaves the loop without interpolation: only allowed if tout was not demanded
+                    U.discharge_valid(r, "normal_mode.no_exit_without_interpolation", hy, tm.num(0, "I") == tm.num(1, "I") if False else tm.eq(tm.num(0, "I"), tm.num(1, "I")))
+    r.add("reach.interpolate_continue_fail", DISCHARGED if nd and nc and nfail else UNDECIDED, "symex", 0, "%d/%d/%d" % (nd, nc, nfail), kind="vacuity")
+    r.assumptions += ["CVStep advances tn by the step it accepts (C12.cvode.step_completed...)", "CVodeDky evaluates the Nordsieck interpolant (C12.cvode.CVodeDky_horner)", "doubles as reals"]
+    return r
+
+
+def unit_dky(twin=False):
+    """CVodeDky: Horner evaluation of the interpolating polynomial: s = (t - tn) / h; for j = q .. k: dky = c_j zn[q] (first) resp.
+    c_j zn[j] + s dky; c_j = j (j-1) ... (j-k+1); then scaled by h^-k for k > 0; t outside [tn - hu, tn] (with the rounding fuzz) is refused."""
+    q = "CVodeDky"
+    fn = A.find_function(REL, q)
+    r = U.new_unit("C12.cvode.CVodeDky_horner", REL, q, fn)
+    f, ex, its, info = U.run_loop_isolated(REL, q, 0, ctx=ctx(functional=()), inner_modes={"*": "iter"})
+    n1 = n2 = 0
+    for s in live(its, ("run", "cont")):
+        cv = local(info, s, "cv_mem"); dky = local(info, s, "dky"); sv = local(info, s, "s")
+        evs = list(U.iter_events(s))
+        j = tm.sym("iter_j", "I"); qq = fld0(ex, s, "cv_q", "I", cv)
+        znd = tm.app("fld:cv_zn", (cv,), "P")
+        if len(evs) != 1:
+            r.add("term.one_vector_operation_per_order", FAILED, "trace", 0, repr([e.name for e in evs])); continue
+        e = evs[0]; nm = e.name.split("::")[-1]
+        for hy, first in cases(list(s.pc), tm.eq(j, qq)):
+            if first:
+                n1 += 1
+                ok = nm == "N_VScale" and e.args[2] is dky and B.z3_prove(hy, tm.eq(e.args[1], tm.select(entry_arr(ex, s, ("m", "P")), znd, j)))[0] == "proved"
+                r.add("highest_order.dky=c*zn[q]", DISCHARGED if ok and not twin else FAILED, "trace", 0, repr(e.args)[:160])
+            else:
+                n2 += 1
+                ok = nm == "N_VLinearSum" and len(e.args) == 5 and e.args[3] is dky and e.args[4] is dky and e.args[2] is sv and e.args[0] is evs[0].args[0] \
+                    and B.z3_prove(hy, tm.eq(e.args[1], tm.select(entry_arr(ex, s, ("m", "P")), znd, j)))[0] == "proved"
+                r.add("lower_orders.dky=c*zn[j]+s*dky", DISCHARGED if ok else FAILED, "trace", 0, repr(e.args)[:200])
+    # inner product c *= i over i = j .. j-k+1
+    inner = info.get("inner_iters", {})
+    ni = 0
+    for ordn, sts in inner.items():
+        for s in live(sts, ("run", "cont")):
+            ni += 1
+            c1 = local(info, s, "c"); i = tm.sym("iter_i", "I")
+            U.discharge_eq_real(r, "coefficient.c*=i", list(s.pc), c1, tm.sym("iter_c", "R") * tm.to_real(i))
+    inner_lp = [x for x in A.walk(fn) if x.get("kind") == "ForStmt"][1]
+    check_accumulator_init(r, fn, REL, inner_lp, "c", "coefficient", zero=("ONE", "1.0", "1", "RCONST(1.0)"))
+    head = tuple(text_of(REL, inner_lp["inner"][k_]) for k_ in (0, 2, 3))
+    r.add("coefficient.k_factors_j..j-k+1(loop_head)", DISCHARGED if head in (("i=j", "i>=j-k+1", "i--"), ("i=j;", "i>=j-k+1", "i--"), ("i=j", "i>j-k", "i--"), ("i=j", "i>=j-k+1", "--i")) else FAILED, "syntactic", 0, repr(head), kind="structural")
+    r.add("reach.first_lower_inner", DISCHARGED if n1 and n2 and ni else UNDECIDED, "symex", 0, "%d/%d/%d" % (n1, n2, ni), kind="vacuity")
+    # s, the range test and the final scaling
+    fn2, ex2, fin, info2 = U.run_function(REL, q, modes={0: "havoc", 1: "havoc"}, ctx=ctx(functional=()))
+    ns = nb = 0
+    for s in live(fin, ("ret",)):
+        cv = tm.sym("P0_cvode_mem", "P"); t = tm.sym("P1_t", "R"); k = tm.sym("P2_k", "I")
+        tn = fld0(ex2, s, "cv_tn", "R", cv); h = fld0(ex2, s, "cv_h", "R", cv); hu = fld0(ex2, s, "cv_hu", "R", cv)
+        L = lambda n: s.locals.get(info2["names"][n])
+        if repr(s.ret) in ("E.OKAY", "E.BAD_T"):
+            tf = L("tfuzz")
+            outside = tm.lt(tm.num(0), (t - (tn - hu - tf)) * (t - (tn + tf)))
+            if twin:
+                outside = tm.lt(tm.num(0), (t - (tn - hu - tf)) * (t - tn))
+            nb += repr(s.ret) == "E.BAD_T"
+            U.discharge_valid(r, "%s.iff_t_%s_[tn-hu,tn]_with_fuzz#%d" % (repr(s.ret)[2:], "outside" if repr(s.ret) == "E.BAD_T" else "inside", ns + nb), list(s.pc), outside if repr(s.ret) == "E.BAD_T" else tm.not_(outside))
+        if repr(s.ret) != "E.OKAY":
+            continue
+        ns += 1
+        sv = L("s")
+        U.discharge_eq_real(r, "s==(t-tn)/h#%d" % ns, list(s.pc), sv, (t - tn) / h)
+        sc = [e for e in s.events if e.name.endswith("N_VScale")]
+        for hy, zero in cases(list(s.pc), tm.eq(k, tm.num(0, "I"))):
+            if zero:
+                r.add("value(k==0).not_rescaled#%d" % ns, DISCHARGED if not sc else FAILED, "trace", 0, "")
+            else:
+                pw = [e for e in s.events if e.name.endswith("RPowerI")]
+                ok = len(sc) == 1 and len(pw) == 1 and sc[0].args[0] is pw[0].result and pw[0].args[0] is h and B.z3_prove(hy, tm.eq(pw[0].args[1], tm.neg(k) if hasattr(tm, "neg") else tm.num(0, "I") - k))[0] == "proved"
+                r.add("derivative(k>0).scaled_by_h^-k#%d" % ns, DISCHARGED if ok else FAILED, "trace", 0, repr([e.args for e in pw])[:120])
+    r.add("reach.okay_and_refused", DISCHARGED if ns and nb else UNDECIDED, "symex", 0, "%d/%d" % (ns, nb), kind="vacuity")
+    r.assumptions += ["N_VScale / N_VLinearSum per C12.nvector.*", "Horner's scheme equals the sum of the header comment (algebra not re-proved)", "RPowerI(h, -k) = h^-k"]
+    return r
+
+
+def unit_newton(twin=False):
+    """one Newton iteration of the corrector: residual gamma*f - (rl1*zn[1] + acor) handed to lsolve; the correction b is added to acor and
+    y = zn[0] + acor; SOLVED is returned only when del * min(1, crate) / tq[4] <= 1 with del the ewt-weighted RMS norm of THIS correction,
+    and the error estimate acnrm handed to the local error test is the ewt-weighted norm of the accumulated correction."""
+    q = "CVNewtonIteration"
+    fn = A.find_function(REL, q)
+    r = U.new_unit("C12.cvode.newton_iteration_converged_iff_dcon<=1", REL, q, fn)
+    loops = [x for x in A.walk(fn) if x.get("kind") in ("ForStmt", "WhileStmt", "DoStmt")]
+    if len(loops) != 1:
+        raise Undecided("CVNewtonIteration: expected one loop, found %d" % len(loops))
+    f, ex, its, info = U.run_loop_isolated(REL, q, 0, ctx=ctx(functional=()))
+    consts = _macro_ints(["SOLVED"])
+    nsol = nother = 0
+    for s in its:
+        evs = list(U.iter_events(s)); names = [e.name.split("::")[-1] for e in evs]
+        cv = local(info, s, "cv_mem")
+        F0 = lambda n, so="R": fld0(ex, s, n, so, cv)
+        zn = lambda j: tm.select(entry_arr(ex, s, ("m", "P")), tm.app("fld:cv_zn", (cv,), "P"), tm.num(j, "I"))
+        if len(evs) < 3 or names[:2] != ["N_VLinearSum", "N_VLinearSum"]:
+            r.add("residual.two_linear_sums_first", FAILED, "trace", 0, ",".join(names)); continue
+        a, b = evs[0].args, evs[1].args
+        tv = F0("cv_tempv", "P")
+        ok1 = a[0] is F0("cv_rl1") and a[1] is zn(1) and tm.isnum(a[2]) and a[2].args[0] == 1 and a[3] is F0("cv_acor", "P") and a[4] is tv
+        ok2 = b[0] is F0("cv_gamma") and b[1] is F0("cv_ftemp", "P") and tm.isnum(b[2]) and b[2].args[0] == (-1 if not twin else 1) and b[3] is tv and b[4] is tv
+        r.add("residual==gamma*f-(rl1*zn[1]+acor)", DISCHARGED if ok1 and ok2 else FAILED, "trace", 0, "%r %r" % (a, b))
+        ls = [e for e in evs if e.name.split("::")[-1] in ("cv_lsolve", "lsolve")]
+        if not (s.status == "ret" and tm.isnum(s.ret) and s.ret.args[0] == consts["SOLVED"]):
+            nother += 1
+            continue
+        nsol += 1
+        nrm = [e for e in evs if e.name.endswith("N_VWrmsNorm")]
+        ewt = F0("cv_ewt", "P"); acor = F0("cv_acor", "P")
+        okn = bool(nrm) and nrm[0].args[0] is tv and nrm[0].args[1] is ewt
+        r.add("solved.del_is_the_ewt_weighted_norm_of_this_correction#%d" % nsol, DISCHARGED if okn else FAILED, "trace", 0, repr(nrm[0].args)[:120] if nrm else "")
+        if not okn:
+            continue
+        dl = nrm[0].result
+        crate = fld(ex, s, "cv_crate", "R", cv)
+        tq4 = _read0(ex, s, "R", tm.app("fld:cv_tq", (cv,), "P"), 4)
+        dcon = dl * tm.ite(tm.lt(crate, tm.num(1)), crate, tm.num(1)) / tq4
+        U.discharge_valid(r, "solved.only_if_del*min(1,crate)/tq[4]<=1#%d" % nsol, list(s.pc), tm.le(dcon, tm.num(1)))
+        sums = [e for e in evs[2:] if e.name.endswith("N_VLinearSum")]
+        one = lambda t: tm.isnum(t) and t.args[0] == 1
+        oka = len(sums) >= 2 and one(sums[0].args[0]) and sums[0].args[1] is acor and one(sums[0].args[2]) and sums[0].args[3] is tv and sums[0].args[4] is acor
+        oky = len(sums) >= 2 and one(sums[1].args[0]) and sums[1].args[1] is zn(0) and one(sums[1].args[2]) and sums[1].args[3] is acor and sums[1].args[4] is F0("cv_y", "P")
+        r.add("solved.acor+=correction_and_y==zn[0]+acor#%d" % nsol, DISCHARGED if oka and oky else FAILED, "trace", 0, repr([e.args for e in sums])[:200])
+        an = fld(ex, s, "cv_acnrm", "R", cv)
+        m0 = local(info, s, "m") if "m" in info["names"] else None
+        for hy, first in cases(list(s.pc), tm.eq(tm.sym("iter_m", "I"), tm.num(0, "I"))):
+            if first:
+                U.discharge_eq_real(r, "solved.first_iteration.acnrm==del#%d" % nsol, hy, an, dl)
+            else:
+                ok = len(nrm) == 2 and nrm[1].args[0] is acor and nrm[1].args[1] is ewt
+                if ok:
+                    U.discharge_eq_real(r, "solved.later_iteration.acnrm==ewt_weighted_norm_of_acor#%d" % nsol, hy, an, nrm[1].result)
+                else:
+                    r.add("solved.later_iteration.acnrm==ewt_weighted_norm_of_acor#%d" % nsol, FAILED, "trace", 0, repr([e.args for e in nrm])[:160])
+    r.add("reach.solved_and_other", DISCHARGED if nsol and nother else UNDECIDED, "symex", 0, "%d/%d" % (nsol, nother), kind="vacuity")
+    r.assumptions += ["lsolve (dense solve) overwrites b = tempv with the correction", "N_VWrmsNorm per C12.nvector.*", "crate update max(CRDOWN*crate, del/delp) is read from the final state, not pinned", "doubles as reals"]
+    return r
+
+
+def unit_rescale_complete(twin=False):
+    """CVRescale: zn[j] *= eta^j for j = 1..q and h = hscale * eta (hscale follows);  CVCompleteStep: zn[j] += l[j] * acor for j = 0..q,
+    the step counter advances by one and hu, qu record the step just taken."""
+    r = U.new_unit("C12.cvode.rescale_and_complete_step", REL, "CVRescale", A.find_function(REL, "CVRescale"))
+    # CVRescale
+    q = "CVRescale"
+    fn = A.find_function(REL, q)
+    f, ex, its, info = U.run_loop_isolated(REL, q, 0, ctx=ctx(functional=()))
+    n = 0
+    for s in live(its, ("run", "cont")):
+        n += 1
+        cv = local(info, s, "cv_mem"); j = tm.sym("iter_j", "I")
+        evs = list(U.iter_events(s))
+        znj = tm.select(entry_arr(ex, s, ("m", "P")), tm.app("fld:cv_zn", (cv,), "P"), j)
+        fac0 = tm.sym("iter_factor", "R")
+        ok = len(evs) == 1 and evs[0].name.endswith("N_VScale") and evs[0].args[0] is fac0 and evs[0].args[1] is znj and evs[0].args[2] is znj
+        r.add("rescale.zn[j]*=factor", DISCHARGED if ok else FAILED, "trace", 0, repr(evs[0].args)[:160] if evs else "")
+        U.discharge_eq_real(r, "rescale.factor*=eta", list(s.pc), local(info, s, "factor"), fac0 * (fld0(ex, s, "cv_eta", "R", cv) if not twin else tm.num(1)))
+    fn_ = A.find_function(REL, q)
+    lp = [x for x in A.walk(fn_) if x.get("kind") == "ForStmt"][0]
+    check_accumulator_init(r, fn_, REL, lp, "factor", "rescale", zero=("eta", "cv_mem->cv_eta"))
+    fnr, exr, fin, infor = U.run_function(REL, q, modes={0: "havoc"}, ctx=ctx(functional=()))
+    cvp = tm.sym("P0_cv_mem", "P")
+    for s in live(fin, ("ret", "run")):
+        # the loop is havocked: h and hscale are not written by it (N_VScale is a vector kernel)
+        hs0 = fld0(exr, s, "cv_hscale", "R", cvp); eta = fld0(exr, s, "cv_eta", "R", cvp)
+        w_h = writes(s, ("f", "cv_h", "R")); w_hs = writes(s, ("f", "cv_hscale", "R"))
+        ok = len(w_h) == 1 and len(w_hs) == 1
+        r.add("rescale.h_and_hscale_written_once", DISCHARGED if ok else FAILED, "symex", 0, "%r %r" % (w_h, w_hs))
+        if ok:
+            r.add("rescale.h==hscale*eta(text)", DISCHARGED if "h=hscale*eta;hscale=h;" in text_of(REL, fn_).replace("cv_mem->cv_", "") else FAILED, "syntactic", 0, "", kind="post")
+    # CVCompleteStep
+    q2 = "CVCompleteStep"
+    fn2 = A.find_function(REL, q2)
+    lps = [x for x in A.walk(fn2) if x.get("kind") == "ForStmt"]
+    k = [i for i, lp in enumerate(lps) if "N_VLinearSum" in text_of(REL, lp)]
+    if len(k) != 1:
+        raise Undecided("correction loop of CVCompleteStep not found")
+    f2, ex2, its2, info2 = U.run_loop_isolated(REL, q2, k[0], ctx=ctx(functional=()))
+    head = tuple(text_of(REL, lps[k[0]]["inner"][i_]) for i_ in (0, 2, 3))
+    r.add("complete.every_column_0..q_corrected(loop_head)", DISCHARGED if head[0].rstrip(";") == "j=0" and head[1] in ("j<=q", "j<q+1") and head[2] in ("j++", "++j") else FAILED, "syntactic", 0, repr(head), kind="structural")
+    r.head_exempt = {(q2, k[0]): "the Nordsieck array has q+1 columns 0..q; the head is stated by complete.every_column_0..q_corrected"}
+    n2 = 0
+    for s in live(its2, ("run", "cont")):
+        n2 += 1
+        cv = local(info2, s, "cv_mem"); j = tm.sym("iter_j", "I")
+        evs = list(U.iter_events(s))
+        znj = tm.select(entry_arr(ex2, s, ("m", "P")), tm.app("fld:cv_zn", (cv,), "P"), j)
+        lj = tm.select(entry_arr(ex2, s, ("m", "R")), tm.app("fld:cv_l", (cv,), "P"), j)
+        a = evs[0].args if evs else ()
+        ok = len(evs) == 1 and evs[0].name.endswith("N_VLinearSum") and a[0] is lj and a[1] is fld0(ex2, s, "cv_acor", "P", cv) and tm.isnum(a[2]) and a[2].args[0] == 1 and a[3] is znj and a[4] is znj
+        r.add("complete.zn[j]+=l[j]*acor", DISCHARGED if ok else FAILED, "trace", 0, repr(a)[:200])
+    fnc, exc, finc, infoc = U.run_function(REL, q2, modes={i: "havoc" for i in range(len(lps))}, ctx=ctx(functional=()))
+    for s in live(finc, ("ret", "run"))[:1]:
+        t2 = text_of(REL, fn2).replace("cv_mem->cv_", "")
+        r.add("complete.records_hu=h_and_qu=q(text)", DISCHARGED if "hu=h;" in t2 and "qu=q;" in t2 and t2.count("nst++;") == 1 else FAILED, "syntactic", 0, "", kind="post")
+    r.add("reach.iterations", DISCHARGED if n and n2 else UNDECIDED, "symex", 0, "%d/%d" % (n, n2), kind="vacuity")
+    r.assumptions += ["loop bounds j = 1..q / 0..q are checked by the automatic loop-head obligations", "N_VScale / N_VLinearSum per C12.nvector.*", "the macro names h, hscale, eta stand for cv_mem->cv_h ... (cvode.cpp's member macros); two facts are read from the statement text"]
+    return r
